@@ -107,6 +107,8 @@ def h2_shifter(ctx, res: Result, fi: FuncInfo, shift_param: str, with_rel: bool,
     with an expression that involves the shift parameter; fall-through branches only touch fields the
     kinds reaching them have."""
     table = kind_table(ctx)
+    _CLOSURES.clear()
+    _CLOSURES.update(_closures(fi.node, shift_param))
     chains = list(heads(fi.node, var))
     if len(chains) != 1:
         raise AnalysisError(f"{fi.qualname}: expected one isinstance dispatch over `{var}`, found {len(chains)}")
@@ -152,9 +154,25 @@ def h2_shifter(ctx, res: Result, fi: FuncInfo, shift_param: str, with_rel: bool,
     return n
 
 
+_CLOSURES: set = set()
+
+
+def _closures(fn, param) -> set:
+    """local functions / lambdas of fn whose body reads `param` (a call of one depends on param)"""
+    out = set()
+    for n in ast.walk(fn):
+        if isinstance(n, (ast.FunctionDef, ast.AsyncFunctionDef)) and n is not fn:
+            if any(isinstance(x, ast.Name) and x.id == param for b in n.body for x in ast.walk(b)) and param not in {a.arg for a in n.args.args}:
+                out.add(n.name)
+        if isinstance(n, ast.Assign) and isinstance(n.value, ast.Lambda) and isinstance(n.targets[0], ast.Name):
+            if any(isinstance(x, ast.Name) and x.id == param for x in ast.walk(n.value.body)) and param not in {a.arg for a in n.value.args.args}:
+                out.add(n.targets[0].id)
+    return out
+
+
 def _depends(val, param, body) -> bool:
     names = {x.id for x in ast.walk(val) if isinstance(x, ast.Name)}
-    if param in names:
+    if param in names or (names & _CLOSURES):
         return True
     # through locals assigned in the same branch
     for _ in range(3):
@@ -175,9 +193,9 @@ def _depends(val, param, body) -> bool:
                             for z in ast.walk(b):
                                 if isinstance(z, ast.Subscript) and isinstance(z.ctx, ast.Store) and isinstance(z.value, ast.Name) and z.value.id in names:
                                     names.add(param)
-        if param in names:
+        if param in names or (names & _CLOSURES):
             return True
-    return param in names
+    return param in names or bool(names & _CLOSURES)
 
 
 def _both_sides_shifted(body, var, fld, param):
@@ -189,7 +207,7 @@ def _both_sides_shifted(body, var, fld, param):
                     k, v = (x.id for x in g.target.elts)
                     kd = {x.id for x in ast.walk(a.key) if isinstance(x, ast.Name)}
                     vd = {x.id for x in ast.walk(a.value) if isinstance(x, ast.Name)}
-                    if k in kd and param in kd and v in vd and param in vd:
+                    if k in kd and (param in kd or kd & _CLOSURES) and v in vd and (param in vd or vd & _CLOSURES):
                         return True, ""
                     return False, f"swap dictionary comprehension shifts only one side: key={src(a.key)} value={src(a.value)}"
             if isinstance(a, ast.For) and f"{var}.{fld}" in src(a.iter) and isinstance(a.target, ast.Tuple) and len(a.target.elts) == 2:
